@@ -26,7 +26,7 @@ var c10Receivers = []c10Recv{
 //verif:timeout 600 3600
 //verif:maxpaths 600000 8000000
 //verif:runinit github.com/go-python/gpython/py.init@type.go:1 github.com/go-python/gpython/py.init@exception.go:1 github.com/go-python/gpython/py.init@string.go:1 github.com/go-python/gpython/py.init@bytes.go:1 github.com/go-python/gpython/py.init@list.go:1 github.com/go-python/gpython/py.init@dict.go:1 github.com/go-python/gpython/py.init@set.go:1 github.com/go-python/gpython/py.init@float.go:1 github.com/go-python/gpython/py.init@complex.go:1 github.com/go-python/gpython/py.init@slice.go:1
-//verif:havoc math.Pow math.Mod
+//verif:havoc math.Pow math.Mod strconv.FormatFloat strconv.AppendFloat strconv.ParseFloat
 //verif:expect called
 func VerifC10Methods() {
 	r := c10Receivers[verifChoice("recv", len(c10Receivers))]
